@@ -79,7 +79,7 @@ def run(ctx):
     hist = {"calls": 0, "calls_with_errors": 0, "calls_with_warnings": 0, "dump_compared": 0, "paired_tables": 0,
             "switch_change_sequences": 0}
     for i in range(ninputs):
-        inp, users = gi.stream_input(ctx.rng)
+        inp, users = gi.stream_input(ctx.rng, force_long=(ctx.rng.choice([4096, 4097, 5000, 8192, 9000]) if i == 0 else None))
         confs = ctx.rng.sample(allbits, min(nconf, len(allbits)))
         ref_tables = None
         # consecutive calls on one instance, switches changed between calls (groups of 4)
@@ -142,3 +142,10 @@ def replay(ctx, data):
         print("replay names broken obligations:", data["broken"])
         return run(ctx)
     tracelib.replay(ctx, data)
+
+
+MANIFEST = dict(
+    technique='Lean 4 theorems on the message-routing model (file = string, disabled sink empty, getline lines, error file contains error string); event-trace correspondence over switch configurations',
+    text="Theorems (Properties/Route.lean) hold for every event trace and switch state. Tie: every call's recorded PHRQ_io event stream replayed through the model, all views (strings, line accessors incl. out-of-range, files read back from disk) compared, over sampled (quick) or all (thorough) switch combinations with switch changes between consecutive calls; paired runs compare value tables across configurations.",
+    note="Trusted: as C05. Dump stream has no PHRQ_io events: dump file vs dump string is a direct oracle only. 'Switches never change computed results' is exploration (paired runs), not a theorem.",
+)
